@@ -100,9 +100,44 @@ func derivesFromCtxField(m *model.Model, v ssa.Value, name string) bool {
 	return false
 }
 
+// ctxApplyFn finds the helper that installs the context's attributes on a Decimal: the unexported
+// method of *Context that takes one *Decimal, returns a *Decimal, and calls SetMode and SetPrec
+// on its parameter ("apply" in the tree; found by shape so that a rename changes nothing).
+func ctxApplyFn(m *model.Model) *ssa.Function {
+	var found *ssa.Function
+	for _, fn := range m.Funcs {
+		if !m.InContextPkg(fn) || fn.Parent() != nil || fn.Signature.Recv() == nil || !m.IsCtxPtr(fn.Signature.Recv().Type()) || ast.IsExported(fn.Name()) {
+			continue
+		}
+		if len(fn.Params) != 2 || !m.IsDecPtr(fn.Params[1].Type()) || fn.Signature.Results().Len() != 1 || !m.IsDecPtr(fn.Signature.Results().At(0).Type()) {
+			continue
+		}
+		hasMode, hasPrec := false, false
+		for _, b := range fn.Blocks {
+			for _, in := range b.Instrs {
+				if cal, _ := model.Callee(in); cal != nil {
+					switch m.FuncName(cal) {
+					case "(*Decimal).SetMode":
+						hasMode = true
+					case "(*Decimal).SetPrec":
+						hasPrec = true
+					}
+				}
+			}
+		}
+		if hasMode || hasPrec {
+			if found == nil || fn.Name() == "apply" {
+				found = fn
+			}
+		}
+	}
+	return found
+}
+
 func runCtx(m *model.Model, s *ob.Set) {
 	const R = "CTX"
 	nan := mayPanicErrNaN(m)
+	applyFn := ctxApplyFn(m)
 	var ctxFns []*ssa.Function
 	for _, fn := range m.Funcs {
 		if m.InContextPkg(fn) && fn.Parent() == nil {
@@ -117,14 +152,16 @@ func runCtx(m *model.Model, s *ob.Set) {
 		name := m.FuncName(fn)
 		pos := m.Pos(fn.Pos())
 		// operator methods: first non-receiver parameter z *decimal.Decimal
-		if len(fn.Params) >= 2 && fn.Params[1].Name() == "z" && m.IsDecPtr(fn.Params[1].Type()) && fn.Name() != "apply" && ast.IsExported(fn.Name()) {
+		if len(fn.Params) >= 2 && fn.Params[1].Name() == "z" && m.IsDecPtr(fn.Params[1].Type()) && fn != applyFn && ast.IsExported(fn.Name()) {
 			nOps++
 			ctxOperator(m, s, fn, nan)
 			continue
 		}
-		switch fn.Name() {
-		case "apply":
+		if fn == applyFn {
 			ctxApply(m, s, fn)
+			continue
+		}
+		switch fn.Name() {
 		case "Err":
 			ok, why := ctxErr(m, fn)
 			s.Check(ok, R+"(T5)", name, pos, "returns the latched error and clears it", why)
@@ -563,7 +600,7 @@ func ctxOperator(m *model.Model, s *ob.Set, fn *ssa.Function, nan map[*ssa.Funct
 				continue
 			}
 			if ac, ok := call.Call.Args[0].(*ssa.Call); ok {
-				if c2 := ac.Call.StaticCallee(); c2 != nil && m.FuncName(c2) == "context.(*Context).apply" {
+				if c2 := ac.Call.StaticCallee(); c2 != nil && c2 == ctxApplyFn(m) {
 					// argument of apply: z, or z.Copy(x) for Set
 					a := ac.Call.Args[1]
 					if m.RefOf(a).OnlyParam(1) {
@@ -578,7 +615,7 @@ func ctxOperator(m *model.Model, s *ob.Set, fn *ssa.Function, nan map[*ssa.Funct
 				if call.Referrers() != nil {
 					for _, u := range *call.Referrers() {
 						if oc, ok := u.(*ssa.Call); ok {
-							if c2 := oc.Call.StaticCallee(); c2 != nil && m.FuncName(c2) == "context.(*Context).apply" {
+							if c2 := oc.Call.StaticCallee(); c2 != nil && c2 == ctxApplyFn(m) {
 								op = cal
 								t2 = ""
 							}
